@@ -1,0 +1,144 @@
+//go:build verif
+
+// Read-only accessors and operation runners for external verification
+// machinery. Compiled only with -tags verif; nothing here is referenced by
+// the library itself.
+
+package reflect
+
+import (
+	"fmt"
+	"reflect"
+	"runtime"
+	"sort"
+	"strings"
+	"unsafe"
+
+	"github.com/cloudwego/frugal/internal/defs"
+)
+
+// VerifResolve prints what defs.DoResolveFields makes of a struct type.
+func VerifResolve(t reflect.Type) (s string, err error) {
+	defer func() {
+		if r := recover(); r != nil {
+			s, err = "", fmt.Errorf("panic: %v", r)
+		}
+	}()
+	ff, err := defs.DoResolveFields(t)
+	if err != nil {
+		return "", err
+	}
+	var sb strings.Builder
+	for _, f := range ff {
+		fmt.Fprintf(&sb, "(f %d %s %d %s)", f.ID, f.Spec.String(), f.Opts, f.Type.String())
+	}
+	return sb.String(), nil
+}
+
+// VerifSpan runs a sequence of (size, align) requests on a fresh span and
+// reports, per request, the ordinal of the block it was served from, the
+// offset inside that block, and the block size.
+func VerifSpan(reqs [][2]int) [][3]int {
+	var s span
+	s.init()
+	block := 0
+	base := s.b
+	out := make([][3]int, 0, len(reqs))
+	for _, r := range reqs {
+		p := s.Malloc(r[0], r[1])
+		if s.b != base {
+			block++
+			base = s.b
+		}
+		out = append(out, [3]int{block, int(uintptr(p) - uintptr(s.b)), s.n})
+	}
+	runtime.KeepAlive(base)
+	return out
+}
+
+// VerifBitset runs set (0) / unset (1) / test (2) operations on one bitset.
+func VerifBitset(ops [][2]int) []bool {
+	bs := &bitset{}
+	var out []bool
+	for _, o := range ops {
+		switch o[0] {
+		case 0:
+			bs.set(uint16(o[1]))
+		case 1:
+			bs.unset(uint16(o[1]))
+		case 2:
+			out = append(out, bs.test(uint16(o[1])))
+		}
+	}
+	return out
+}
+
+// VerifDescMap runs Set (0, key, val) / Get (1, key) on a fresh descriptor map;
+// descriptors are identified by small integers (0 = nil).
+func VerifDescMap(ops [][3]int) []int {
+	m := newMapStructDesc()
+	ids := map[*structDesc]int{}
+	sds := map[int]*structDesc{}
+	get := func(i int) *structDesc {
+		if i == 0 {
+			return nil
+		}
+		if sds[i] == nil {
+			sds[i] = &structDesc{}
+			ids[sds[i]] = i
+		}
+		return sds[i]
+	}
+	var out []int
+	for _, o := range ops {
+		switch o[0] {
+		case 0:
+			m.Set(uintptr(o[1]), get(o[2]))
+		case 1:
+			out = append(out, ids[m.Get(uintptr(o[1]))])
+		}
+	}
+	return out
+}
+
+// VerifUnknown runs Add(off, sz) operations then Copy over b.
+func VerifUnknown(b []byte, adds [][2]int) []byte {
+	u := unknownFieldsPool.Get().(*unknownFields)
+	defer unknownFieldsPool.Put(u)
+	u.Reset()
+	for _, a := range adds {
+		u.Add(a[0], a[1])
+	}
+	if u.Size() == 0 {
+		return nil
+	}
+	return u.Copy(b)
+}
+
+// VerifDispatch lists the registered fast-path routines by function name.
+func VerifDispatch() []string {
+	name := func(f appendFuncType) string {
+		n := runtime.FuncForPC(reflect.ValueOf(f).Pointer()).Name()
+		return n[strings.LastIndex(n, ".")+1:]
+	}
+	var out []string
+	for k, f := range listAppendFuncs {
+		out = append(out, fmt.Sprintf("list %d %s", k, name(f)))
+	}
+	for k, f := range mapAppendFuncs {
+		out = append(out, fmt.Sprintf("map %d %d %s", k.k, k.v, name(f)))
+	}
+	sort.Strings(out)
+	return out
+}
+
+// VerifParams reports constants the model reads from the source.
+func VerifParams() map[string]int {
+	return map[string]int{
+		"maxDepthLimit":         maxDepthLimit,
+		"defaultDecoderMemSize": defaultDecoderMemSize,
+		"mapStructDescBuckets":  mapStructDescBuckets,
+		"bitsetWords":           len(bitset{}.data),
+		"sizeofUnsafePointer":   int(unsafe.Sizeof(unsafe.Pointer(nil))),
+	}
+}
